@@ -11,6 +11,7 @@ From Verif Require LitEmit K22Proofs PyLit PyLitProofs PyStrLit.
 From VerifGen Require K22.
 From VerifGen Require K21.
 From Verif Require Import UnionDispatch K43Proofs.
+From Verif Require Import UnionMember.
 From VerifGen Require Import K43.
 Import ListNotations.
 Open Scope string_scope.
@@ -384,6 +385,15 @@ Theorem C11_field_none_test_once : forall co D eid nullable e d,
 Proof. exact field_none_test_once. Qed.
 Print Assumptions C11_field_none_test_once.
 
+(* what runs before the dispatch in the registries: user overrides (C10), SerializableType, dataclasses,
+   Final, Any -- none of them answers for a plain Union / Optional / type variable position *)
+Example C11_creators_before :
+  unpack_creators_before = ["unpack_type_with_overridden_deserialization"; "unpack_serializable_type";
+                            "unpack_generic_serializable_type"; "unpack_dataclass"; "unpack_final"; "unpack_any"]%string /\
+  pack_creators_before = ["pack_type_with_overridden_serialization"; "pack_serializable_type";
+                          "pack_generic_serializable_type"; "pack_dataclass"; "pack_final"; "pack_any"]%string.
+Proof. split; reflexivity. Qed.
+
 Example C11_dispatch_nonvacuous :
   let tv := DTypeVar 7 false [] None None in
   (* Optional[date] / Union[None, date]: short-circuit on date *)
@@ -496,6 +506,69 @@ Example C11_deep_encode_nonvacuous :
   qsafe t v = true /\ qenc t v = Some (UDict [(UStr "k", UList [UList [UStr "a"; UStr "2020-01-01"]; UNone])]) /\
   qenc t (UDict [(UStr "k", UTuple [UInt 5; d])]) = Some (UDict [(UStr "k", UList [UInt 5; UStr "2020-01-01"])]) /\
   qenc t (UDict [(UStr "k", UTuple [UFloat None "1.5"; UNone])]) = None.
+Proof. cbv zeta. repeat split; reflexivity. Qed.
+
+(* ---------- serialization of member VALUES: typing membership inside the model ---------- *)
+(* rty = pty whose leaves carry their membership; rconf r v: v is a value of type r (Optional: None or the
+   argument, Union: some member, containers: exact class and every item); rmem: at every union the FIRST
+   member, in declaration order, to which the value BELONGS packs it (the property's encode_member);
+   renc = the generated packer (qenc, pack_union at union positions). *)
+Definition C11_member_value_full : Prop :=
+  forall r v, rleaves r -> rconf r v = true -> qcoh (to_pty r) v -> renc r v = rmem r v.
+
+(* rwd: along the members the value belongs to, the branches that fire on it agree (hereditary wire_disjoint).
+   Conclusion: the value is packed as by its member, and packing does not raise. *)
+Theorem C11_member_value_partial : forall r v,
+  rleaves r -> rconf r v = true -> qcoh (to_pty r) v -> rwd r v = true ->
+  renc r v = rmem r v /\ rmem r v <> None.
+Proof. exact (fun r v => member_value_partial r v). Qed.
+Print Assumptions C11_member_value_partial.
+
+(* Union[List[int], List[date]] holding [date(..)]: belongs to the second member only, the first packer takes it *)
+Definition w_enc1 (v: uv) : option uv := match v with UList _ => Some v | _ => None end.
+Definition w_conf1 (v: uv) : bool := match v with UList [UInt _] => true | _ => false end.
+Definition w_enc2 (v: uv) : option uv :=
+  match v with UList [UObj c _] => if String.eqb c "date" then Some (UList [UStr "2020-01-01"]) else None | _ => None end.
+Definition w_conf2 (v: uv) : bool := match v with UList [UObj c _] => String.eqb c "date" | _ => false end.
+
+Lemma w_leaf1 : leaf_ok "list" false w_enc1 w_conf1.
+Proof. intros v H. destruct v; try discriminate H. split; [discriminate | intro E; discriminate E]. Qed.
+Lemma w_leaf2 : leaf_ok "list" false w_enc2 w_conf2.
+Proof.
+  intros v H. destruct v as [| | | | |l| | |]; try discriminate H.
+  destruct l as [|x l']; try discriminate H. destruct x; try discriminate H. destruct l'; try discriminate H.
+  simpl in *. rewrite H. split; [discriminate | intro E; discriminate E].
+Qed.
+
+Theorem C11_member_value_refuted : ~ C11_member_value_full.
+Proof.
+  intro H.
+  specialize (H (RU [(1%nat, RLeaf "list" false w_enc1 w_conf1); (2%nat, RLeaf "list" false w_enc2 w_conf2)])
+                (UList [UObj "date" "datetime.date(2020, 1, 1)"])).
+  assert (L: rleaves (RU [(1%nat, RLeaf "list" false w_enc1 w_conf1); (2%nat, RLeaf "list" false w_enc2 w_conf2)])).
+  { simpl. split; [exact w_leaf1 | split; [exact w_leaf2 | exact I]]. }
+  assert (Q: qcoh (to_pty (RU [(1%nat, RLeaf "list" false w_enc1 w_conf1); (2%nat, RLeaf "list" false w_enc2 w_conf2)]))
+                  (UList [UObj "date" "datetime.date(2020, 1, 1)"])).
+  { simpl. split; [|repeat split].
+    intros a b Ha Hb _ _ Hk. simpl in Ha, Hb.
+    destruct Ha as [Ha|[Ha|[]]]; destruct Hb as [Hb|[Hb|[]]]; subst; simpl in Hk; try discriminate Hk; reflexivity. }
+  specialize (H L eq_refl Q). discriminate H.
+Qed.
+Print Assumptions C11_member_value_refuted.
+
+Example C11_member_value_nonvacuous :
+  let dt := RLeaf "date" false (fun v => match v with UObj c _ => if String.eqb c "date" then Some (UStr "2020-01-01") else None | _ => None end)
+                  (fun v => match v with UObj c _ => String.eqb c "date" | _ => false end) in
+  let it := RLeaf "int" true Some (fun v => match v with UInt _ => true | _ => false end) in
+  let r := RDict (RTupF [RList (RU [(1%nat, it); (2%nat, dt)]); ROpt (RU [(1%nat, dt); (2%nat, it)])]) in
+  let d := UObj "date" "datetime.date(2020, 1, 1)" in
+  let v := UDict [(UStr "k", UTuple [UList [UInt 1; d]; UNone])] in
+  rconf r v = true /\ rwd r v = true /\
+  renc r v = Some (UDict [(UStr "k", UList [UList [UInt 1; UStr "2020-01-01"]; UNone])]) /\
+  rmem r v = renc r v /\
+  (* a list is not a value of Tuple[...], a float not a member of Union[int, date] *)
+  rconf r (UDict [(UStr "k", UList [UList [UInt 1]; UNone])]) = false /\
+  rconf r (UDict [(UStr "k", UTuple [UList [UFloat None "1.5"]; UNone])]) = false.
 Proof. cbv zeta. repeat split; reflexivity. Qed.
 
 (* ---------- Literal (after fix 0e88a65: the class of the value is compared too) ---------- *)
